@@ -292,6 +292,18 @@ impl Ex {
             Ex::Ite(a, b, c) => format!("(Ite {} {} {})", a.sexpr(), b.sexpr(), c.sexpr()),
         }
     }
+    /// the s-expression text with variable v written as `names[v]`
+    pub fn sexpr_named(&self, names: &[&str]) -> String {
+        match self {
+            Ex::Var(v) => format!("(Var {})", names[*v]),
+            Ex::Not(a) => format!("(Not {})", a.sexpr_named(names)),
+            Ex::And(a, b) => format!("(And {} {})", a.sexpr_named(names), b.sexpr_named(names)),
+            Ex::Or(a, b) => format!("(Or {} {})", a.sexpr_named(names), b.sexpr_named(names)),
+            Ex::Iff(a, b) => format!("(Iff {} {})", a.sexpr_named(names), b.sexpr_named(names)),
+            Ex::Xor(a, b) => format!("(Xor {} {})", a.sexpr_named(names), b.sexpr_named(names)),
+            Ex::Ite(a, b, c) => format!("(Ite {} {} {})", a.sexpr_named(names), b.sexpr_named(names), c.sexpr_named(names)),
+        }
+    }
     /// rsdd's LogicalExpr with the given variable indices (built node by node, incl. `Not`)
     pub fn to_logical(&self, idx: &[usize]) -> rsdd::repr::LogicalExpr {
         use rsdd::repr::LogicalExpr as L;
